@@ -14,6 +14,11 @@
 (*    tab    E15(from_table(...).pvt_props["alpha"], the same ratio)   at table nodes                        *)
 (*    intso  E15(c with the oil saturation given as an INTEGER 0 / 1 (Python int or integer array), c with the *)
 (*           same saturation as a float), same scale: the value of a saturation does not depend on its dtype   *)
+(*    objlam, objc  E15 of the same mobility / compressibility evaluated through the accessors the object built by *)
+(*           from_table carries (obj.pvt, obj.kr) against the documented sum / the storage difference             *)
+(*    kept   E15(mobility through the first object's accessors, documented sum) AFTER the caller's reference-     *)
+(*           density dictionary was updated in place and a second object was built from it with another table:   *)
+(*           an object keeps the fluid it was built with                                                          *)
 EXTENDS TraceLib, Quant
 VARIABLES l, h
 Tol == 1000
@@ -22,7 +27,8 @@ NoMono == [x \in {} |-> 0]
 C16Rules ==
   [storage |-> [mono |-> NoMono,
                 agreeMax |-> [cdiff |-> A("all"), zero |-> A("all"), slope |-> A("all"), phi |-> A("all"),
-                              lam |-> A("all"), alpha |-> A("all"), tab |-> A("all"), intso |-> A("all")],
+                              lam |-> A("all"), alpha |-> A("all"), tab |-> A("all"), intso |-> A("all"),
+                              objlam |-> A("all"), objc |-> A("all"), kept |-> A("all")],
                 mustTrue |-> {},
                 need |-> {"none"}, minPoints |-> 3]]
 INSTANCE SweepCore WITH Rules <- C16Rules
